@@ -59,6 +59,10 @@ pub struct C14Scenario {
     /// result document does not fit the pipe), and these contenders started while it is stuck printing
     #[serde(default)]
     pub blocked_stdout: Option<(usize, Vec<Kind>)>,
+    /// the holder has been past the lock for this long (real milliseconds, longer than the configured
+    /// bind_timeout_ms of 1000) before the first contender starts
+    #[serde(default)]
+    pub hold_ms: Option<u32>,
 }
 
 pub struct C14;
@@ -111,6 +115,7 @@ fn gen_c14(seed: u64, idx: usize, _tier: Tier) -> C14Scenario {
         nested: if hold_at_child && rng.chance(1, 2) { Some(*rng.pick(&kinds)) } else { None },
         listen_delay_us: if rng.chance(1, 3) { Some(*rng.pick(&[2_000u32, 20_000, 100_000])) } else { None },
         stray_connection: rng.chance(1, 3),
+        hold_ms: if rng.chance(1, 8) { Some(*rng.pick(&[1150u32, 1400, 2300])) } else { None },
         blocked_stdout: if rng.chance(1, 8) { Some((rng.range(30, 60), (0..rng.range(1, 3)).map(|_| *rng.pick(&kinds)).collect())) } else { None },
     }
 }
@@ -387,6 +392,11 @@ fn exec_c14(sc: &C14Scenario) -> Outcome {
         out.fault("stray_connection_to_the_lock_port", 1);
         // give a holder that (wrongly) serves its lock port a moment to react
         std::thread::sleep(Duration::from_millis(30));
+    }
+    if let Some(ms) = sc.hold_ms {
+        std::thread::sleep(Duration::from_millis(ms as u64));
+        out.fault("holder_past_the_lock_for_longer_than_the_bind_timeout", 1);
+        out.sim_ms += ms as u64;
     }
     let s1 = snap(&w, sc.hold_at_child);
     // ---- phase B: contenders started while the holder is past the lock
